@@ -303,7 +303,9 @@ func (x *Exec) assign(n *ast.AssignStmt, st *State) {
 		switch op {
 		case token.ADD:
 			if a.Sort == "Str" {
-				x.unsupported(n, "string +=")
+				x.ctx.declOnce("strcat", "(declare-fun strcat (Str Str) Str)\n(assert (forall ((a Str) (b Str)) (! (= (strlen (strcat a b)) (+ (strlen a) (strlen b))) :pattern ((strcat a b)))))")
+				x.store(n.Lhs[0], Term{S: app("strcat", a.S, b.S), Sort: "Str", T: a.T}, st)
+				return
 			}
 			r = Term{S: arith("+", a.S, b.S), Sort: "Int", T: a.T}
 		case token.SUB:
@@ -516,6 +518,13 @@ func (x *Exec) typeSwitch(n *ast.TypeSwitchStmt, st *State, fr *frame, k func(*S
 
 // ---- loops ----
 
+type mapRangeInfo struct {
+	ks   string
+	has  func(k string) string
+	vvar *types.Var
+	cur  Term
+}
+
 type modSet struct {
 	vars    map[types.Object]bool
 	mem     map[string]bool
@@ -670,6 +679,14 @@ func (x *Exec) assignKeys(e ast.Expr, c *FuncContract, fn *types.Func) []string 
 		}
 		if id, ok := n.Fun.(*ast.Ident); ok && id.Name == "global" && len(n.Args) == 1 {
 			return []string{"G!" + exprString(n.Args[0])}
+		}
+		if id, ok := n.Fun.(*ast.Ident); ok && id.Name == "mapof" && len(n.Args) == 1 {
+			if t := x.staticSpecType(n.Args[0], fn); t != nil {
+				if mt, ok := t.Underlying().(*types.Map); ok {
+					kv, kh := x.regMap(mt)
+					return []string{kv, kh}
+				}
+			}
 		}
 	case *ast.SelectorExpr:
 		if t := x.staticSpecType(n.X, fn); t != nil {
@@ -1015,6 +1032,7 @@ func (x *Exec) rangeStmt(n *ast.RangeStmt, label string, st *State, fr *frame, k
 	var lenT string
 	var elemAt func(st *State, i Term) Term
 	var keyAt func(st *State) Term // map ranges: the key of the current iteration
+	var mapRange *mapRangeInfo
 	switch u := coll.T.Underlying().(type) {
 	case *types.Map:
 		// iteration over a map: an unknown number n >= 0 of iterations, n == 0 exactly when the map is empty; each
@@ -1028,14 +1046,40 @@ func (x *Exec) rangeStmt(n *ast.RangeStmt, label string, st *State, fr *frame, k
 		st.assume(app("=", app("=", nn, "0"), fmt.Sprintf("(forall ((k?m %s)) (not %s))", ks, x.mapHas(st, coll, mt, Term{S: "k?m", Sort: ks}).S)))
 		kv, kh := x.regMap(mt)
 		msChk := x.modified(n.Body)
-		if msChk.allMem || msChk.mem[kv] || msChk.mem[kh] {
-			x.unsupported(n, "range over a map that the body may modify")
+		_ = kv
+		if msChk.allMem {
+			x.unsupported(n, "range over a map while the body may modify any memory")
+		}
+		if msChk.mem[kh] {
+			// the body writes maps of this type: accepted only if it does not syntactically write the ranged map; the
+			// key set iterated is the one at loop start (a body that adds keys to the ranged map through an alias is outside the model)
+			ranged := exprString(n.X)
+			bad := false
+			ast.Inspect(n.Body, func(nd ast.Node) bool {
+				if as, ok := nd.(*ast.AssignStmt); ok {
+					for _, l := range as.Lhs {
+						if ix, ok := l.(*ast.IndexExpr); ok && exprString(ix.X) == ranged {
+							bad = true
+						}
+					}
+				}
+				return true
+			})
+			if bad {
+				x.unsupported(n, "range over a map that the body modifies")
+			}
+			x.ctx.note("range over " + ranged + ": the body writes other maps of the same type; assumed not to add keys to the ranged map through an alias")
 		}
 		startSt := st.clone()
+		mapRange = &mapRangeInfo{ks: ks, has: func(k string) string { return x.mapHas(startSt, coll, mt, Term{S: k, Sort: ks}).S }}
 		keyAt = func(s *State) Term {
 			kk := Term{S: x.ctx.fresh("mapkey", ks), Sort: ks, T: mt.Key()}
 			s.assume(x.mapHas(startSt, coll, mt, kk).S)
 			s.assume(x.typeInv(s, kk))
+			// the key has not been visited before; afterwards it has
+			v := s.vars[mapRange.vvar]
+			s.assume(not(app("select", v.S, kk.S)))
+			mapRange.cur = kk
 			return kk
 		}
 		elemAt = nil
@@ -1118,6 +1162,16 @@ func (x *Exec) rangeStmt(n *ast.RangeStmt, label string, st *State, fr *frame, k
 	if lc != nil {
 		e2 := entry.clone()
 		x.bindRangeIndex(n, e2, zero)
+		if mapRange != nil {
+			name := fmt.Sprintf("range_v%d", ord)
+			vv, ok := x.synth[name]
+			if !ok {
+				vv = types.NewVar(n.Pos(), x.fi.Pkg.Types, name, intT)
+				x.synth[name] = vv
+			}
+			vs := "(Array " + mapRange.ks + " Bool)"
+			e2.vars[vv] = Term{S: fmt.Sprintf("((as const %s) false)", vs), Sort: vs}
+		}
 		x.assertInv(lc, ord, e2, pos, "inv-entry", n, nil)
 	}
 	ms := x.modified(n.Body)
@@ -1128,6 +1182,21 @@ func (x *Exec) rangeStmt(n *ast.RangeStmt, label string, st *State, fr *frame, k
 	i := Term{S: x.ctx.fresh("range_i", "Int"), Sort: "Int", T: intT}
 	head.assume(and(app("<=", "0", i.S), app("<=", i.S, lenT)))
 	x.bindRangeIndex(n, head, i)
+	if mapRange != nil {
+		// ghost set of the keys visited so far (visited(N, k) in invariants): a subset of the map's keys
+		name := fmt.Sprintf("range_v%d", ord)
+		vv, ok := x.synth[name]
+		if !ok {
+			vv = types.NewVar(n.Pos(), x.fi.Pkg.Types, name, intT)
+			x.synth[name] = vv
+		}
+		mapRange.vvar = vv
+		vs := "(Array " + mapRange.ks + " Bool)"
+		vhead := x.ctx.fresh("visited", vs)
+		head.vars[vv] = Term{S: vhead, Sort: vs}
+		head.assume(fmt.Sprintf("(forall ((k?v %s)) (=> (select %s k?v) %s))", mapRange.ks, vhead, mapRange.has("k?v")))
+		head.assume(app("=", app("=", i.S, "0"), fmt.Sprintf("(forall ((k?v %s)) (not (select %s k?v)))", mapRange.ks, vhead)))
+	}
 	if lc != nil {
 		env := x.specEnvAt(head, pos)
 		for _, c := range lc.Invariants {
@@ -1141,10 +1210,19 @@ func (x *Exec) rangeStmt(n *ast.RangeStmt, label string, st *State, fr *frame, k
 	}
 	body := x.branch(head, app("<", i.S, lenT), "body")
 	exit := x.branch(head, app("=", i.S, lenT), "exit")
+	if mapRange != nil {
+		v := head.vars[mapRange.vvar]
+		exit.assume(fmt.Sprintf("(forall ((k?v %s)) (=> %s (select %s k?v)))", mapRange.ks, mapRange.has("k?v"), v.S))
+		body.assume(fmt.Sprintf("(exists ((k?v %s)) (and %s (not (select %s k?v))))", mapRange.ks, mapRange.has("k?v"), v.S))
+	}
 	x.cover(body, fmt.Sprintf("loop%d-body", ord), n)
 	setIter(body, i)
 	inner := fr.child()
 	endIter := func(s *State) {
+		if mapRange != nil && mapRange.cur.S != "" {
+			v := s.vars[mapRange.vvar]
+			s.vars[mapRange.vvar] = Term{S: app("store", v.S, mapRange.cur.S, "true"), Sort: v.Sort}
+		}
 		if lc != nil {
 			nx := Term{S: app("+", i.S, "1"), Sort: "Int", T: intT}
 			x.bindRangeIndex(n, s, nx)
@@ -1259,7 +1337,8 @@ func (x *Exec) finish(st *State, vals []Term, n ast.Node) {
 }
 
 func (x *Exec) coverEnd(st *State, n ast.Node) {
-	x.cover(st, "return", n)
+	// every return statement must be reachable on at least one path (vacuity guard per return)
+	x.cover(st, "return@"+x.posOf(n), n)
 }
 
 // checkFrame: every memory location not named in assigns keeps its entry value.
@@ -1352,6 +1431,15 @@ func (x *Exec) assignTargets(c *FuncContract, pre *State, names map[string]Term)
 					out["G!"+exprString(n.Args[0])] = []string{}
 					return
 				}
+				if id, ok := n.Fun.(*ast.Ident); ok && id.Name == "mapof" {
+					m := env.expr(n.Args[0])
+					if mt, ok := m.T.Underlying().(*types.Map); ok {
+						kv, kh := x.regMap(mt)
+						out[kv] = append(out[kv], m.S)
+						out[kh] = append(out[kh], m.S)
+						return
+					}
+				}
 			case *ast.SelectorExpr:
 				b := env.expr(n.X)
 				if s, stT := structOf(b.T); s != nil {
@@ -1419,6 +1507,19 @@ func (x *Exec) applyContract(call ast.Node, c *FuncContract, key string, names m
 		f, ok := x.clause(cl, e)
 		return f, ok
 	}
+	// the callee's ghost functions, defined over the pre-state of this call (visible to its requires and ensures)
+	if len(c.Ghosts) > 0 {
+		saved := x.ghosts
+		x.ghosts = map[string]*ghostFun{}
+		for k, v := range saved {
+			x.ghosts[k] = v
+		}
+		defer func() { x.ghosts = saved }()
+		genv := *env
+		gpre := st.clone()
+		genv.st, genv.old = gpre, gpre
+		x.declareGhosts(c, &genv, st)
+	}
 	for _, r := range c.Requires {
 		if f, ok := evalC(r, env); ok {
 			x.oblige(st, "pre:"+short, r.Label, call, f)
@@ -1442,18 +1543,6 @@ func (x *Exec) applyContract(call ast.Node, c *FuncContract, key string, names m
 		}
 	}
 	pre := st.clone()
-	// the callee's ghost functions, defined over the pre-state of this call (visible to its ensures only)
-	if len(c.Ghosts) > 0 {
-		saved := x.ghosts
-		x.ghosts = map[string]*ghostFun{}
-		for k, v := range saved {
-			x.ghosts[k] = v
-		}
-		defer func() { x.ghosts = saved }()
-		genv := *env
-		genv.st, genv.old = pre, pre
-		x.declareGhosts(c, &genv, st)
-	}
 	// frame: havoc what the callee may assign
 	if c.HasAssigns || c.Trusted || c.Pure {
 		targets := x.assignTargets(c, pre, names)
